@@ -10,6 +10,11 @@ The REAL ``run_migrations`` (through each of its entry points: ``migrate.run_mig
                      with ``iter_migration_files`` truncated to the first k files (k = 0: only the bookkeeping table exists)
   kind 2  legacy k   the pre-``schema_migrations`` layout: the first k migration files executed, ``PRAGMA user_version = k``,
                      no bookkeeping table (this is exactly what the package's own tests/server/test_migrations.py builds)
+  kind 3  released prefix k   as kind 1, but built from the migration files AS RELEASED at the pinned commit (a frozen copy under
+                     harness/data/sqlite_migrations_released/), not from the tree's current files: a database that a deployed
+                     release really left behind.  Editing an already-released migration file (moving a statement from a later
+                     file into an earlier one, say) leaves kinds 1/2 self-consistent but strands these databases.
+  kind 4  released legacy k   as kind 2 from the frozen released files
 
 and then re-run ``reruns`` more times through a (symbolically chosen, possibly different) entry point.
 Post: ``sqlite_master`` (type, name, table, whitespace-normalised SQL) and every table's ``PRAGMA table_info`` equal those of a
@@ -20,10 +25,12 @@ from __future__ import annotations
 import vlib.boot  # noqa: F401
 from vlib.boot import B
 from vlib.ob import obligation
+from vlib.paths import VERIF as _VERIF
 from vlib.h_stores import TmpDir, pick_int, warm_sqlite
 
 import logging
 import os
+import pathlib
 import sqlite3
 
 from llama_agents.server._store import SQLITE_MIGRATION_SOURCE
@@ -42,13 +49,16 @@ ENCODED = [
     "llama_agents.server._store.sqlite.sqlite_workflow_store:SqliteWorkflowStore._open_nolock",
 ]
 ASSUMES = [
-    "the input space is tiny and finite: start kind (3) x k (0..number of migration files) x connection mode (2) x entry point of the "
+    "the input space is tiny and finite: start kind (5) x k (0..number of migration files) x connection mode (2) x entry point of the "
     "first run (3 / 2) x number of further runs (1..RERUNS) x entry point of the further runs (3 / 2); the solver enumerates it completely (one path per "
     "combination) — this is complete enumeration of a small domain THROUGH the solver, not a symbolic argument about SQL: "
     "SQLite executes the DDL concretely inside each path and the DDL semantics are SQLite's (3.40.1 on this box)",
     "an 'earlier schema version' is (a) what the real migrator leaves when only the first k migration files exist, or (b) the "
     "legacy layout built the way the package's own test_migrations.py builds it (first k files executed, PRAGMA user_version=k, "
     "no schema_migrations table); the migration files are read from the current tree on every run, so a newly added file is covered",
+    "kinds 3/4 take 'what a deployed release left behind' from a frozen copy of the migration files as shipped at the pinned commit "
+    "(harness/data/sqlite_migrations_released/, byte-identical to git aacd163); files added to the tree later are not in the frozen set "
+    "and are treated as unreleased (kinds 1/2 still cover them)",
     "the reference schema is the one obtained by migrating a fresh database once in the same path",
     "one database file is only ever opened in ONE connection mode (per-call connections, or the lock-free unix-none VFS of "
     "single_connection=True) — see OUTSIDE",
@@ -74,6 +84,10 @@ logging.disable(logging.CRITICAL)
 
 _FILES = iter_migration_files(SQLITE_MIGRATION_SOURCE[1])
 NMIG = len(_FILES)            # 4 at the pinned commit; read from the tree so a new migration file extends the bound
+_RELEASED_DIR = pathlib.Path(_VERIF) / "harness" / "data" / "sqlite_migrations_released"
+_RELEASED = sorted(_RELEASED_DIR.glob("*.sql"))     # frozen copy of the files shipped at the pinned commit (aacd163)
+NREL = len(_RELEASED)
+assert NREL >= 4, _RELEASED_DIR
 RERUNS = B(1, 2)
 ENTRIES = 3     # 0 migrate.run_migrations(conn)   1 SqliteWorkflowStore.run_migrations(path) (per-call mode only)   2 store constructor
 
@@ -115,9 +129,12 @@ def _prepare(path: str, kind: int, k: int, nolock: bool) -> None:
     if kind == 0:
         sqlite3.connect(path).close()
         return
-    if kind == 1:
+    if kind == 1 or kind == 3:
         real = _mig.iter_migration_files
-        _mig.iter_migration_files = lambda pkg: real(pkg)[:k]   # an earlier release: only the first k files are shipped
+        if kind == 1:
+            _mig.iter_migration_files = lambda pkg: real(pkg)[:k]   # an earlier release: only the first k files are shipped
+        else:
+            _mig.iter_migration_files = lambda pkg: list(_RELEASED[:k])   # ... with the files as they were released
         try:
             conn = _conn(path, nolock)
             try:
@@ -130,7 +147,7 @@ def _prepare(path: str, kind: int, k: int, nolock: bool) -> None:
         return
     conn = sqlite3.connect(path)
     try:
-        for p in iter_migration_files(SQLITE_MIGRATION_SOURCE[1])[:k]:
+        for p in (iter_migration_files(SQLITE_MIGRATION_SOURCE[1]) if kind == 2 else _RELEASED)[:k]:
             conn.executescript(p.read_text())
         conn.execute("PRAGMA user_version=%d" % k)
         conn.commit()
@@ -166,21 +183,22 @@ def _book(path: str):
 
 
 @obligation(quick=150, thorough=400,
-            partitions_quick=["kind == 0", "kind == 1 and k <= 2", "kind == 1 and k > 2", "kind == 2 and k <= 2", "kind == 2 and k > 2"],
-            partitions_thorough=["kind == 0"] + [f"kind == {kd} and k == {k}" for kd in (1, 2) for k in range(NMIG + 1)],
-            what="run_migrations from {fresh, first-k-migrations release, legacy user_version=k} through any entry point, then re-run: final schema == fresh-migrated schema, "
+            partitions_quick=["kind == 0"] + [f"kind == {kd} and k {c} 2" for kd in (1, 2, 3, 4) for c in ("<=", ">")],
+            partitions_thorough=["kind == 0"] + [f"kind == {kd} and k == {k}" for kd in (1, 2, 3, 4) for k in range(max(NMIG, NREL) + 1)],
+            what="run_migrations from {fresh, first-k-migrations release, legacy user_version=k, the same two built from the frozen AS-RELEASED migration files} through any entry point, then re-run: final schema == fresh-migrated schema, "
                  "schema_migrations has each declared version exactly once, further runs change nothing",
-            bounds={"kind": "fresh / prefix / legacy", "k": "0..NMIG (all migration files of the current tree)", "connection mode": "per-call / single_connection (unix-none VFS)",
+            bounds={"kind": "fresh / prefix / legacy / released prefix / released legacy", "k": "0..NMIG (all migration files of the current tree)", "connection mode": "per-call / single_connection (unix-none VFS)",
                     "entry points": "3 resp. 2 (first run) x 3 resp. 2 (re-runs)", "re-runs": "1..RERUNS"})
 def ob_migrations_converge(kind: int, k: int, nolock: bool, e1: int, reruns: int, e2: int) -> bool:
     """
-    pre: 0 <= kind <= 2 and 0 <= k <= NMIG and (kind != 0 or k == 0)
+    pre: 0 <= kind <= 4 and 0 <= k and (kind != 0 or k == 0)
+    pre: (k <= NMIG if kind <= 2 else k <= NREL)
     pre: 0 <= e1 < ENTRIES and 0 <= e2 < ENTRIES and 1 <= reruns <= RERUNS
     pre: not (nolock and (e1 == 1 or e2 == 1))
     post: _
     """
-    kind = pick_int(kind, 0, 2)
-    k = pick_int(k, 0, NMIG)
+    kind = pick_int(kind, 0, 4)
+    k = pick_int(k, 0, max(NMIG, NREL))
     e1 = pick_int(e1, 0, ENTRIES - 1)
     e2 = pick_int(e2, 0, ENTRIES - 1)
     reruns = pick_int(reruns, 1, RERUNS)
